@@ -180,7 +180,7 @@ static int drv_enum(vop_t *ops, int max)
         }
         ADD(6, l, 0, 0, 0); ADD(7, l, 0, 0, 0); ADD(12, l, 0, 0, 0);
         for (m = 1; m <= NL; m++) if (m != l) ADD(8, l, m, 0, 0);
-        for (m = l + 1; m <= NL; m++) ADD(9, l, m, 0, 0);
+        for (m = l; m <= NL; m++) ADD(9, l, m, 0, 0);      /* m == l: a list swapped with itself */
         if (PROBES) {
             for (st = 0; st <= slen[l]; st++) ADD(11, l, st, 0, 0);
             ADD(13, l, 0, 0, 0);
@@ -204,7 +204,7 @@ static int drv_random(unsigned long (*rnd)(void), vop_t *op)
     else if (r < 70) { op->k = 6; op->a[0] = l; }
     else if (r < 76) { op->k = 7; op->a[0] = l; }
     else if (r < 82 && m != l) { op->k = 8; op->a[0] = l; op->a[1] = m; }
-    else if (r < 87 && m != l) { op->k = 9; op->a[0] = l < m ? l : m; op->a[1] = l < m ? m : l; }
+    else if (r < 87 ) { op->k = 9; op->a[0] = l < m ? l : m; op->a[1] = l < m ? m : l; }
     else if (r < 93) { op->k = 11; op->a[0] = l; op->a[1] = (rnd() & 1) ? 0 : (int)(rnd() % (unsigned)(slen[l] + 1)); }
     else if (r < 95) { op->k = 12; op->a[0] = l; }
     else { op->k = 13; op->a[0] = l; }
